@@ -72,17 +72,46 @@ def size(*es):
 
 # ------------------------------------------------------------------ constructors (text + sexp)
 
+# lexical variety (text only — the encoded AST is unaffected): set per generated case, None = plain forms.  The choice
+# is a function of the token and the salt, not of the random stream, so that a program and its forced-type twin are
+# generated from identical random streams
+LEX_SALT = None
+
+
+def num_text(n):
+    """source text of a non-negative integer constant: sometimes `12.0`, or `1e2` / `12e1` when it ends in zeros"""
+    if LEX_SALT is None:
+        return str(n)
+    k = (n * 2654435761 + LEX_SALT) % 17
+    if k == 0:
+        return "%d.0" % n
+    if k == 1 and n > 0 and n % 10 == 0:
+        m, e = n, 0
+        while m % 10 == 0:
+            m //= 10; e += 1
+        return "%de%d" % (m, e) if (LEX_SALT + n) % 2 else "%dE+%d" % (m, e)
+    return str(n)
+
+
 def num(n):
     if n < 0:
         return neg(num(-n))
-    return E(P_PRIM, str(n), sx("num", str(n)), "num")
+    return E(P_PRIM, num_text(n), sx("num", str(n)), "num")
 
 
 ESC = {"\n": "\\n", "\t": "\\t", "\\": "\\\\", '"': '\\"'}
 
 
 def awk_str(s):
-    return '"' + "".join(ESC.get(c, c) for c in s) + '"'
+    out = []
+    for i, c in enumerate(s):
+        if c in ESC:
+            out.append(ESC[c])
+        elif LEX_SALT is not None and c.isalnum() and (ord(c) * 31 + LEX_SALT + i) % 19 == 0 and not (i + 1 < len(s) and s[i + 1] in "01234567"):
+            out.append("\\%03o" % ord(c))          # octal escape sequence
+        else:
+            out.append(c)
+    return '"' + "".join(out) + '"'
 
 
 def strlit(s):
@@ -156,12 +185,21 @@ def cond(c, t, f):
              size=size(c, t, f), **eff(c, t, f))
 
 
+def _brk(op, left):
+    """a newline is allowed after && and || (POSIX lexical conventions)"""
+    if LEX_SALT is not None and (len(left) * 7 + LEX_SALT) % 9 == 0:
+        return " " + op + "\n      "
+    return " " + op + " "
+
+
 def and_(a, b):
-    return E(P_AND, a.at(P_AND) + " && " + b.at(P_NOT), sx("and", a.sx, b.sx), "num", size=size(a, b), **eff(a, b))
+    l = a.at(P_AND)
+    return E(P_AND, l + _brk("&&", l) + b.at(P_NOT), sx("and", a.sx, b.sx), "num", size=size(a, b), **eff(a, b))
 
 
 def or_(a, b):
-    return E(P_OR, a.at(P_OR) + " || " + b.at(P_AND), sx("or", a.sx, b.sx), "num", size=size(a, b), **eff(a, b))
+    l = a.at(P_OR)
+    return E(P_OR, l + _brk("||", l) + b.at(P_AND), sx("or", a.sx, b.sx), "num", size=size(a, b), **eff(a, b))
 
 
 def not_(a):
@@ -305,6 +343,33 @@ def match_(negated, e, re):
              sx("match", "1" if negated else "0", e.sx, re.sx), "num", size=size(e), **eff(e))
 
 
+def match_dyn(negated, e, re):
+    """`e ~ "re"`: the regular expression given as a string literal (a dynamic regexp); same meaning, same AST"""
+    return E(P_MATCH, e.at(P_CMP) + (" !~ " if negated else " ~ ") + '"' + re.txt + '"',
+             sx("match", "1" if negated else "0", e.sx, re.sx), "num", size=size(e), **eff(e))
+
+
+def matchfn(e, re):
+    r = eff(e)
+    r["writes"] |= {"RSTART", "RLENGTH"}
+    return E(P_PRIM, "match(" + e.at(P_TERN) + ", /" + re.txt + "/)", sx("matchfn", e.sx, re.sx), "num", size=size(e), **r)
+
+
+def substre(glob, re, repl, target=None):
+    es = [repl] + ([target] if target is not None else [])
+    r = eff(*es)
+    if target is None:
+        r["reads"] |= {"$"}
+        r["writes"] |= {"$"}
+    else:
+        w = lv_target(target)
+        r["writes"] |= w
+        r["cwrites"] -= w
+    t = ("gsub" if glob else "sub") + "(/" + re.txt + "/, " + repl.at(P_TERN) + ("" if target is None else ", " + target.txt) + ")"
+    return E(P_PRIM, t, sx("substre", "1" if glob else "0", re.sx, repl.sx, *([target.sx] if target is not None else [])),
+             "num", size=size(*es), **r)
+
+
 def retest(re):
     return E(P_PRIM, "/" + re.txt + "/", sx("retest", re.sx), "num", reads=["$"])
 
@@ -335,7 +400,7 @@ class Fn:
 
 
 class Gen:
-    def __init__(self, rng, fieldcmp=False, input_names=(), extra_names=(), fs=" ", neutral=False):
+    def __init__(self, rng, fieldcmp=False, input_names=(), extra_names=(), fs=" ", neutral=False, fs_in_begin=True):
         self.rng = rng
         self.fieldcmp = fieldcmp
         self.neutral = neutral       # emit the forced-type twin of every bare comparison / bare truth value
@@ -349,6 +414,7 @@ class Gen:
         self.features = set()
         self.fs = fs
         self.protected = set()       # loop counters that bodies must not write
+        self.fs_in_begin = fs_in_begin    # False: FS comes from the command line (-F, -v FS=, or an FS= operand)
         self.regex_alts = []
         self.rmw_alts = []
         self.no_record = False       # inside a loop bounded by NF: the body must not touch the record
@@ -583,6 +649,9 @@ class Gen:
             return self.join2(lambda x, y: cmp_(op, x, y), a, b)
         if r < 0.6:
             self.features.add("regex")
+            if self.chance(0.2):
+                self.features.add("regex-dynamic-string")
+                return match_dyn(self.chance(0.3), self.str_expr(depth + 1), self.regex(plain=True))
             return match_(self.chance(0.3), self.str_expr(depth + 1), self.regex())
         if r < 0.7:
             return and_(self.bool_expr(depth + 1), self.bool_expr(depth + 1))
@@ -643,13 +712,15 @@ class Gen:
             a, b = binop("add", a, num(0)), binop("add", b, num(0))
         return cmp_(op, a, b)
 
-    def regex(self):
+    def regex(self, nonnull=False, plain=False):
+        """nonnull: the expression cannot match the empty string (for sub/gsub); plain: no backslash escapes and no
+        characters special inside a string literal (for the dynamic form `e ~ "re"`)"""
         n = self.rng.randrange(1, 4)
         items_t, items_s = [], []
         for _ in range(n):
             r = self.rng.random()
             if r < 0.55:
-                c = self.pick(WORD_LETTERS + "0123456789 :,-=")
+                c = self.pick(WORD_LETTERS + "0123456789 :,=" + ("" if plain else "-"))
                 at_t, at_s = re_escape_lit(c), sx("ch", hx(c))
             elif r < 0.7:
                 at_t, at_s = ".", "any"
@@ -668,6 +739,8 @@ class Gen:
                 at_t = "[" + ("^" if ngt else "") + body_t + "]"
                 at_s = sx("cls", "1" if ngt else "0", hx(chars))
             q = self.rng.random()
+            if nonnull and not items_t:
+                q = q * 0.6 if q < 0.8 else 0.8          # the first item matches at least one character
             qt, qs = ("", "one") if q < 0.6 else ("*", "star") if q < 0.75 else ("+", "plus") if q < 0.9 else ("?", "opt")
             items_t.append(at_t + qt)
             items_s.append(sx("item", at_s, qs))
@@ -698,7 +771,13 @@ class Gen:
             a, b = self.str_expr(depth + 1), (strlit(self.pick(["a", "b", "ab", " ", ":", "1", "lo", "X"])) if self.chance(0.85)
                                               else cat(self.str_expr(depth + 1), strlit(self.pick(["a", "1", " "]))))
             return self.join2(lambda x, y: builtin("index", [x, y], "num"), a, b)
-        return builtin("int", [self.num_expr(depth + 1)], "num")
+        if r < 0.8 or (self.in_func is not None and self.in_func["pure"]):
+            return builtin("int", [self.num_expr(depth + 1)], "num")
+        self.features.add("match()")
+        src = self.str_expr(depth + 1)
+        if not src.pure():
+            src = strlit(self.text())
+        return matchfn(src, self.regex())
 
     def str_builtin(self, depth):
         r = self.rng.random()
@@ -706,8 +785,14 @@ class Gen:
         if r < 0.35:
             s = self.str_expr(depth + 1)
             m = num(self.rng.randrange(1, 6)) if self.chance(0.8) else self.num_expr(depth + 2)
+            if self.chance(0.06):
+                m = num(self.pick([0, 100000, 2147483648, 4294967296, 9007199254740992]))
+                self.features.add("substr-extreme")
             if self.chance(0.6):
                 n = num(self.rng.randrange(0, 6)) if self.chance(0.8) else self.num_expr(depth + 2)
+                if self.chance(0.08):
+                    n = self.pick([num(2147483647), num(4294967296), num(9007199254740992), neg(num(1)), neg(num(2147483648))])
+                    self.features.add("substr-extreme")
                 args = [s, m, n]
             else:
                 args = [s, m]
@@ -729,10 +814,31 @@ class Gen:
             r = self.rng.random()
             flags = self.pick(["", "", "", "-", "0"]) if r < 0.6 else ""
             width = self.pick(["", "", "1", "3", "5", "8"])
+            star = None
+            if width and self.chance(0.1):
+                # `%*d`: the width is taken from the argument list (a negative one left-justifies)
+                star = num(int(width)) if self.chance(0.75) else neg(num(int(width)))
+                width = "*"
+                self.features.add("fmt-star-width")
+            if star is not None:
+                args.append(star)
             if r < 0.35:
                 prec = self.pick(["", "", ".1", ".3"]) if flags != "0" else ""
-                parts.append("%" + flags + width + prec + self.pick(["d", "d", "i"]))
+                sign = self.pick(["", "", "", "+", " "])
+                if sign:
+                    self.features.add("fmt-sign-flag")
+                parts.append("%" + sign + flags + width + prec + self.pick(["d", "d", "i"]))
                 args.append(self.num_expr(depth + 1))
+            elif r < 0.42:
+                # %f %e %g of integer values: exactly defined (half-to-even rounding of the decimal expansion)
+                conv = self.pick(["f", "e", "g", "g", "E", "G"])
+                sign = self.pick(["", "", "+", " "])
+                parts.append("%" + sign + flags + width + self.pick(["", "", ".0", ".2", ".3"]) + conv)
+                # (`+ 0` turns a negative zero — `-x` with x == 0, which %e and %g would print as -0 — into plain 0; the
+                # integer model has no negative zero)
+                args.append(self.pick([num(self.small()), num(self.pick([0, 5, 995, 2500, 12350, 99999, 1000000, 1234567, 123456789])),
+                                       neg(num(self.rng.randrange(1, 1000))), binop("add", self.num_expr(depth + 2), num(0))]))
+                self.features.add("fmt-float-conv")
             elif r < 0.7:
                 fl = "" if flags == "0" else flags
                 parts.append("%" + fl + width + self.pick(["", "", ".2", ".0", ".5"]) + "s")
@@ -742,7 +848,11 @@ class Gen:
                 parts.append("%" + fl + width + "c")
                 args.append(num(self.rng.randrange(33, 127)) if self.chance(0.5) else strlit(self.pick(["a", "Bc", "z9", "#"])))
             else:
-                parts.append("%" + flags + width + self.pick(["x", "X", "o", "u"]))
+                conv = self.pick(["x", "X", "o", "u"])
+                alt = "#" if conv != "u" and self.chance(0.25) else ""
+                if alt:
+                    self.features.add("fmt-alt-flag")
+                parts.append("%" + alt + flags + width + self.pick(["", "", ".3"] if flags != "0" else [""]) + conv)
                 args.append(self.pick([num(self.small()), var("NR"), builtin("length", [self.str_expr(depth + 2)], "num")]))
             self.features.add("fmt")
         fmt = "".join(parts) + ("\n" if newline else "")
@@ -792,6 +902,9 @@ class Gen:
             lv = var(self.pick(ws)) if self.chance(0.7) or not self.array_names() else self.elem(depth + 1)
             if lv.writes:          # read-modify-write of an lvalue whose subscript has a side effect: see rmw_stmt
                 lv = var(self.pick(ws))
+            if self.chance(0.12) and self.record_ok() and self.phase in ("main", "end"):
+                lv = field(num(self.rng.randrange(1, 5))) if self.chance(0.8) else var("NF")
+                self.features.add("incdec-field")
             self.features.add("incdec")
             return incdec(self.chance(0.5), self.chance(0.6), lv)
         if r < 0.8:
@@ -804,10 +917,29 @@ class Gen:
             return assign(op, lv, e if op == "set" else self.force_small(e))
         if r < 0.9 and self.record_ok():
             self.features.add("sub")
-            tgt = None if self.chance(0.4) and self.phase != "func" else var(self.pick(ws))
+            tgt = None if self.chance(0.4) and self.phase != "func" else self.sub_target(ws, depth)
+            if self.chance(0.35):
+                self.features.add("sub-regex")
+                return substre(self.chance(0.5), self.regex(nonnull=True), strlit(self.pick(["", "-", "[&]", "&&", "Z", "\\&", "x y"])), tgt)
             return subst(self.chance(0.5), self.pick(["a", "b", "ab", " ", "1", "X", ":", "lo"]),
                          strlit(self.pick(["", "-", "[&]", "&&", "Z", "\\&", "x y"])), tgt)
         return incdec(False, True, var(self.pick(ws)))
+
+    def sub_target(self, ws, depth, elements=True):
+        """third argument of sub/gsub (and the variable of getline): a variable, an array element or a field.
+        (getline takes no element: a FAILING `getline A[k] < file` still creates A[k] in gawk and mawk — the lvalue is
+        referenced — while hawk creates it only when it assigns; noted, outside the profile)"""
+        k = self.rng.random()
+        if k < 0.65 or not self.record_ok():
+            return var(self.pick(ws))
+        if k < 0.8 and self.array_names() and elements:
+            e = idx(self.pick(self.array_names()), [self.pick([num(self.rng.randrange(0, 4)), strlit("k")])])
+            self.features.add("target-element")
+            return e
+        if self.phase in ("main", "end"):
+            self.features.add("target-field")
+            return field(num(self.rng.randrange(1, 5)))
+        return var(self.pick(ws))
 
     def force_small(self, e):
         return e
@@ -1036,6 +1168,8 @@ class Gen:
         r = self.rng.random()
         names = [n for n in self.extra_names + self.input_names if n not in self.busy_files] + ["nosuch"]
         lvs = [var(v) for v in self.writable_scalars() if v not in RESULTS]
+        if self.chance(0.15) and self.record_ok() and self.array_names():
+            lvs = [self.sub_target([v for v in self.writable_scalars() if v not in RESULTS], depth, elements=False)]
         if r < 0.25 and self.phase != "func":
             self.features.add("getline-plain")
             return getline()
@@ -1152,6 +1286,12 @@ class Gen:
 
     def braced(self, head, stmts, tail=None):
         lines, bsx = self.render_block(stmts)
+        if (tail is None and len(stmts) == 1 and len(lines) == 1 and LEX_SALT is not None and head.startswith(("if (", "while (", "for (", "else"))
+                and not lines[0].startswith(("if", "print")) and (len(lines[0]) + LEX_SALT) % 4 == 0):
+            # a single simple statement as the body, without braces (the caller's "} else" splice handles only braces,
+            # so the closing line is kept as an empty marker)
+            self.features.add("unbraced-body")
+            return [head, "    " + lines[0] + (";" if not lines[0].endswith(";") else ""), ""], bsx
         out = [head + " {"] + ["  " + l for l in lines] + ["}" + (" " + tail + self.sep if tail else "")]
         return out, bsx
 
@@ -1164,7 +1304,10 @@ class Gen:
         tl, tsx = self.braced("if (" + c.at(P_ASSIGN + 1) + ")", t)
         if has_else:
             el, esx = self.braced("else", e)
-            tl = tl[:-1] + ["} " + el[0]] + el[1:]
+            if tl[-1] == "":                 # unbraced then-part: `if (c)` NEWLINE `stmt;` NEWLINE `else …`
+                tl = tl[:-1] + [el[0]] + el[1:]
+            else:
+                tl = tl[:-1] + ["} " + el[0]] + el[1:]
         else:
             esx = sx("blk")
         return (tl, sx("if", c.sx, tsx, esx), False)
@@ -1277,12 +1420,35 @@ class Gen:
                 lv = var(self.pick(RESULTS))
                 return self.simple(assign("set", lv, e))
             return self.simple(e)
-        # assign a special variable
-        v = self.pick(["OFS", "OFS", "ORS", "FS", "SUBSEP"])
+        # assign a special variable: from a string literal, but also from an unset variable, a number or an expression
+        v = self.pick(["OFS", "OFS", "OFS", "ORS", "FS", "SUBSEP", "CONVFMT", "OFMT", "NR", "FNR"])
         val = {"OFS": ["-", ":", "", "  ", ","], "ORS": ["\n", "|\n", "\n\n", ";"], "FS": [":", ",", " ", ";", "\t", "-"],
-               "SUBSEP": [":", "|"]}[v]
+               "SUBSEP": [":", "|"], "CONVFMT": ["%.6g", "%.3g"], "OFMT": ["%.6g", "%.2g"], "NR": [], "FNR": []}[v]
         self.features.add(v + "=")
-        return self.simple(assign("set", var(v), strlit(self.pick(val))))
+        k = self.rng.random()
+        if v in ("NR", "FNR"):
+            e = num(self.rng.randrange(0, 30)) if self.chance(0.7) else binop("add", var(v), num(self.rng.randrange(1, 5)))
+            self.features.add("special=number")
+        elif v in ("CONVFMT", "OFMT"):
+            e = strlit(self.pick(val))        # (no effect on integers; the assignment path itself is exercised)
+        elif v == "FS":
+            if k < 0.75:
+                e = strlit(self.pick(val))
+            else:
+                e = num(self.rng.randrange(0, 10))        # FS = 5: the digit is the separator
+                self.features.add("special=number")
+        elif k < 0.5:
+            e = strlit(self.pick(val))
+        elif k < 0.68:
+            e = var(self.pick(["un1", "un2"]))              # a variable that is never assigned
+            self.features.add("special=unset")
+        elif k < 0.84:
+            e = num(self.rng.randrange(0, 100))
+            self.features.add("special=number")
+        else:
+            e = cat(strlit(self.pick(val)), self.pick([num(self.rng.randrange(0, 10)), var(self.pick(self.scalar_names())), strlit("-")]))
+            self.features.add("special=expr")
+        return self.simple(assign("set", var(v), e))
 
     # -- functions --------------------------------------------------------------------------------
     def gen_function(self, i):
@@ -1395,7 +1561,7 @@ class Gen:
             if kind == "b":
                 self.phase = "begin"
                 body = []
-                if self.fs != " " and first_begin:
+                if self.fs != " " and first_begin and self.fs_in_begin:
                     body.append(self.simple(assign("set", var("FS"), strlit(self.fs))))
                     self.features.add("FS=")
                 if first_begin and self.chance(0.3):
@@ -1520,6 +1686,17 @@ def render_items(items):
         else:
             rules.append(sx("rule", it["pat"], bsx))
     prog_sx = sx("prog", sx("funcs", *funcs), sx("begins", *begins), sx("rules", *rules), sx("ends", *ends))
+    lines = [l for l in lines if l.strip()]
+    if LEX_SALT is not None:
+        # comments: whole-line ones and trailing ones (a `#` inside a string literal of the line is no problem: the
+        # comment starts after the complete line)
+        out = []
+        for i, l in enumerate("\n".join(lines).split("\n")):
+            k = (i * 13 + len(l) + LEX_SALT) % 11
+            if k == 0:
+                out.append("# comment with \"quotes\", a { brace and a /slash/ %d" % i)
+            out.append(l + ("  # c%d }" % i if k == 1 else ""))
+        lines = out
     return "\n".join(lines) + "\n", prog_sx
 
 
@@ -1589,11 +1766,16 @@ def gen_case(rng, fieldcmp=False):
     files = [(n, gen_content(rng, fs)) for n in names]
     stdin = gen_content(rng, fs) if nfiles == 0 else ""
     extra = [("e1.dat", gen_content(rng, fs))] if rng.random() < 0.6 else []
+    cmdline, fs_in_begin, cfeats = gen_cmdline(rng, fs, names)
+    global LEX_SALT
+    LEX_SALT = rng.randrange(1, 1 << 30) if rng.random() < 0.5 else None
+    if LEX_SALT is not None:
+        cfeats.add("lexical-variety")
     state = rng.getstate()
-    g = Gen(rng, fieldcmp=fieldcmp, input_names=names, extra_names=[n for n, _ in extra], fs=fs)
+    g = Gen(rng, fieldcmp=fieldcmp, input_names=names, extra_names=[n for n, _ in extra], fs=fs, fs_in_begin=fs_in_begin)
     items = g.program()
     txt, psx = render_items(items)
-    feats = set(g.features)
+    feats = set(g.features) | cfeats
     feats.add("files=%d" % nfiles)
     if any(c and not c.endswith("\n") for _, c in files) or (stdin and not stdin.endswith("\n")):
         feats.add("no-trailing-newline")
@@ -1601,20 +1783,95 @@ def gen_case(rng, fieldcmp=False):
         feats.add("empty-file")
     case = dict(items=items, regex_alts=list(g.regex_alts), rmw_alts=list(g.rmw_alts), prog_txt=txt, prog_sx=psx, files=files, stdin=stdin, extra=extra,
                 features=feats, fieldcmp=fieldcmp)
+    if cmdline is not None:
+        case["cmdline"] = cmdline
     if fieldcmp and ("barecmp" in feats or "bare-truth" in feats):
         after = rng.getstate()
         rng.setstate(state)
-        g2 = Gen(rng, fieldcmp=True, input_names=names, extra_names=[n for n, _ in extra], fs=fs, neutral=True)
+        g2 = Gen(rng, fieldcmp=True, input_names=names, extra_names=[n for n, _ in extra], fs=fs, neutral=True, fs_in_begin=fs_in_begin)
         t2, s2 = render_items(g2.program())
         if rng.getstate() == after and t2 != txt:
             case["twin_txt"], case["twin_sx"] = t2, s2
             case["twin_regex_alts"] = list(g2.regex_alts)
             case["twin_rmw_alts"] = list(g2.rmw_alts)
         rng.setstate(after)
+    case["lex_salt"] = LEX_SALT
+    LEX_SALT = None
     return case
 
 
+def cl_escape(val):
+    """command-line text of a value: the escape sequences POSIX interprets in `-v` values and `var=value` operands"""
+    return "".join({"\\": "\\\\", "\t": "\\t", "\n": "\\n", '"': '\\"'}.get(c, c) for c in val)
+
+
+CL_VARS = ["x", "y", "z", "s", "t", "u", "cnt", "tot", "g0", "g1"]
+
+
+def gen_cmdline(rng, fs, names):
+    """the command-line dimension: -F fs, -v var=value (before BEGIN) and var=value operands between the files
+    (carried out when reached; after the last file: before END).  Values: canonical integers (numeric strings), words,
+    text with escape sequences, the empty string; variables: the program's scalar pool and OFS / ORS / SUBSEP / FS.
+    Returns (cmdline | None, fs_in_begin, features)."""
+    feats = set()
+    fopt, vopts, pre = None, [], []
+    fs_in_begin = True
+    if fs != " " and rng.random() < 0.45:
+        fs_in_begin = False
+        k = rng.random()
+        if k < 0.4:
+            fopt = (cl_escape(fs), fs); feats.add("cmdline-F")
+        elif k < 0.7:
+            vopts.append(("FS", cl_escape(fs), fs)); feats.add("cmdline-v-special")
+        else:
+            pre.append(("assign", "FS", cl_escape(fs), fs)); feats.add("cmdline-operand-special")
+
+    def value():
+        k = rng.random()
+        if k < 0.35:
+            return str(rng.choice([0, 1, 2, 5, 7, 10, 42, 100, -3, 999]))
+        if k < 0.6:
+            return "".join(rng.choice(WORD_LETTERS) for _ in range(rng.randrange(1, 5)))
+        if k < 0.7:
+            return ""
+        if k < 0.85:
+            return rng.choice(["a\tb", "p\\q", 'say "hi"', "l1\nl2", "\tlead", "a b  c", "k=v", "12ab", " 7 "])
+        return rng.choice([":", "-", ",", "<>", ";"])
+    operands = [("file", n) for n in names]
+    if rng.random() < 0.4:
+        for _ in range(rng.randrange(1, 4)):
+            k = rng.random()
+            if k < 0.7:
+                name, val = rng.choice(CL_VARS), value()
+            else:
+                name = rng.choice(["OFS", "OFS", "ORS", "SUBSEP"])
+                val = rng.choice({"OFS": [":", "-", "", "\t", "<>", "7"], "ORS": ["\n", ";\n", "|"], "SUBSEP": [":", "|"]}[name])
+            if rng.random() < 0.5:
+                vopts.append((name, cl_escape(val), val))
+                feats.add("cmdline-v-special" if name.isupper() else "cmdline-v")
+            else:
+                pos = rng.randrange(0, len(operands) + 1)
+                operands.insert(pos, ("assign", name, cl_escape(val), val))
+                feats.add("cmdline-operand-special" if name.isupper() else "cmdline-operand")
+                if pos == len(operands) - 1:
+                    feats.add("cmdline-operand-last")
+            if val != cl_escape(val):
+                feats.add("cmdline-escapes")
+    operands = pre + operands
+    if fopt is None and not vopts and all(o[0] == "file" for o in operands):
+        return None, fs_in_begin, feats
+    return dict(fopt=fopt, vopts=vopts, operands=operands), fs_in_begin, feats
+
+
 def encode_case(case, fuel=20000):
+    cl = case.get("cmdline")
+    if cl:
+        content = dict(case["files"])
+        ops = [sx("file", hx(o[1]), hx(content[o[1]])) if o[0] == "file" else sx("assign", o[1], hx(o[3])) for o in cl["operands"]]
+        opts = ([sx("fs", hx(cl["fopt"][1]))] if cl.get("fopt") else []) + [sx("v", n, hx(v)) for n, _, v in cl["vopts"]]
+        return sx("case", str(fuel), case["prog_sx"], sx("opts", *opts), sx("operands", *ops),
+                  sx("stdin", hx(case["stdin"])),
+                  sx("extra", *[sx("file", hx(n), hx(c)) for n, c in case["extra"]]))
     return sx("case", str(fuel), case["prog_sx"],
               sx("files", *[sx("file", hx(n), hx(c)) for n, c in case["files"]]),
               sx("stdin", hx(case["stdin"])),
